@@ -1386,6 +1386,24 @@ class Interp:
             ast.copy_location(stmt, s)
             ast.fix_missing_locations(stmt)
             return self.exec_stmt(stmt, fr)
+        # accumulation loop: `for x in seq: acc += e(x)` / `acc *= e(x)` (e does not read acc)  is
+        # `acc += sum(e(x) for x in seq)` / `acc *= math.prod(e(x) for x in seq)` — integer / real arithmetic is associative
+        # and commutative in the models (floats are reals)
+        if len(s.body) == 1 and isinstance(s.body[0], ast.AugAssign) and isinstance(s.body[0].op, (ast.Add, ast.Mult)) \
+                and isinstance(s.body[0].target, ast.Name) and not s.orelse \
+                and not any(isinstance(n, ast.Name) and n.id == s.body[0].target.id for n in ast.walk(s.body[0].value)):
+            import copy
+            acc, op = s.body[0].target.id, s.body[0].op
+            ok, cur = fr.lookup(acc)
+            if ok and (B.is_intlike(cur) or B.is_numlike(cur)):
+                gen = ast.GeneratorExp(elt=copy.deepcopy(s.body[0].value), generators=[ast.comprehension(
+                    target=copy.deepcopy(s.target), iter=copy.deepcopy(s.iter), ifs=[], is_async=0)])
+                fn = 'sum' if isinstance(op, ast.Add) else '__vf_prod__'
+                stmt = ast.AugAssign(target=ast.Name(id=acc, ctx=ast.Store()), op=type(op)(),
+                                     value=ast.Call(func=ast.Name(id=fn, ctx=ast.Load()), args=[gen], keywords=[]))
+                ast.copy_location(stmt, s)
+                ast.fix_missing_locations(stmt)
+                return self.exec_stmt(stmt, fr)
         # names assigned in the body must not be read after the loop in this function
         fi = fr.func
         if fi is not None:
